@@ -31,10 +31,13 @@ PAYLOADS = [
     "\\'); __import__('vmc_sentinel').hit(); (\\'",
     "'''", '"""', "\\N{DIGIT ONE}", "{0}", "%s", "%(x)s", "a\x00b", "x'\ny", "\\", "\\\\", "a\\", "\\'", "it's", 'say "hi"', "{", "}",
     "__class__", "None", "MISSING", "d", "value", "cls", "self", "kwargs",
+    # long strings (identifiers, URNs, sentences): nothing may abbreviate, truncate or hash-collide them
+    "urn:example:schema:alphaalphaalpha:payload-kind/v1.0", "x" * 300, "The quick brown fox's \"lazy\" dog\n" * 4,
 ]
 POSITIONS = ("alias_meta", "alias_annotated", "alias_config", "alias_meta_forbid", "alias_config_forbid", "alias_meta_allow",
              "alias_meta_slowpath", "alias_config_omitdefault", "alias_annotated_byaliasflag",
-             "typeddict_req", "typeddict_notreq", "discriminator", "literal_str", "literal_bytes", "enum_value", "nt_as_dict")
+             "typeddict_req", "typeddict_notreq", "discriminator", "literal_str", "literal_bytes", "enum_value", "nt_as_dict",
+             "literal_generic_arg")
 
 
 def strings(tier):
@@ -217,6 +220,26 @@ def probe(pos, s, ctx):
                     need(False, "neighbour-accepted", f"{n!r} accepted for Literal[{s!r}] -> {r!r}")
                 except ValueError:
                     pass
+    elif pos == "literal_generic_arg":
+        # two specialisations of one generic dataclass whose arguments are Literal[s] and Literal[twin of s] side by side
+        twin = (s[:len(s) // 2] + ("y" if s[len(s) // 2] != "y" else "w") + s[len(s) // 2 + 1:]) if s else "z"
+        ctx.ns["T"] = __import__("typing").TypeVar("T")
+        ctx.ns["Generic"] = __import__("typing").Generic
+        Box = ctx.execute("Box", "@dataclass\nclass Box(Generic[T]):\n    x: T\n")
+        H = make_dataclass("H", [("a", Box[Literal[s]]), ("b", Box[Literal[twin]])], bases=(DataClassDictMixin,),
+                           namespace={"__module__": ctx.modname})
+        ctx.ns["H"] = H
+        h = H(Box(s), Box(twin))
+        wire = h.to_dict()
+        need(wire == {"a": {"x": s}, "b": {"x": twin}}, "wrong-value-written", f"{wire!r}")
+        back = H.from_dict({"a": {"x": s}, "b": {"x": twin}})
+        need(back == h, "wrong-value-read", f"{back!r}")
+        for bad_in in ({"a": {"x": twin}, "b": {"x": twin}}, {"a": {"x": s}, "b": {"x": s}}):
+            try:
+                r = H.from_dict(bad_in)
+                need(False, "neighbour-accepted", f"{bad_in!r} accepted -> {r!r}")
+            except ValueError:
+                pass
     elif pos == "enum_value":
         E = enum.Enum("E", {"A": s, "B": s + "!"})
         E.__module__ = ctx.modname
